@@ -253,6 +253,12 @@ pub broadcast proof fn axiom_into_text_of_str(name: &str)
 pub fn name_into<N: Into<String>>(name: N) -> (r: String)
     ensures r@ == into_text(name)
 { name.into() }
+// the `name: impl Into<String>` parameter of the two meet_scope_start, by a signature rewrite: a value that converts into the String
+// with its text, so that `name.into()` needs no rewrite wherever the body calls it (both callers pass a `&str`)
+pub struct NameArg { pub s: String }
+impl NameArg {
+    pub fn into(self) -> (r: String) ensures r@ == self.s@ { self.s }
+}
 
 // ================================================================ streams_variables.rs
 //@ lift air/src/execution_step/execution_context/streams_variables/stream_descriptor.rs :: struct StreamDescriptor
@@ -430,15 +436,17 @@ impl Streams {
 //@ lift air/src/execution_step/execution_context/streams_variables.rs :: impl Streams :: fn meet_scope_start
 //@ name Streams::meet_scope_start
 //@ props C13 C10 C01
-//@ rewrite 1 "let name = name.into();" => "let name = name_into(name);"
+//@ sig 1 "name: impl Into<String>" => "name: NameArg"
+//@ at-start
+        let ghost name_text = name.s@;
 //@ at-end
-        assert(self.streams@[name@] =~= bound_to(old(self)@, name@).push(StreamDescriptor { span, stream: fresh_stream() }));
+        assert(self.streams@[name_text] =~= bound_to(old(self)@, name_text).push(StreamDescriptor { span, stream: fresh_stream() }));
 //@ spec
         ensures
             // every descriptor that was bound to the name still is, in the same order, followed by the new restricted one (empty stream);
             // every other name is untouched
-            final(self)@ == old(self)@.insert(into_text(name),
-                bound_to(old(self)@, into_text(name)).push(StreamDescriptor { span, stream: fresh_stream() })),
+            final(self)@ == old(self)@.insert(name.s@,
+                bound_to(old(self)@, name.s@).push(StreamDescriptor { span, stream: fresh_stream() })),
             // C13
             no_stream_lost(old(self)@, final(self)@),
 //@ end
@@ -578,15 +586,17 @@ impl StreamMaps {
 //@ lift air/src/execution_step/execution_context/stream_maps_variables.rs :: impl StreamMaps :: fn meet_scope_start
 //@ name StreamMaps::meet_scope_start
 //@ props C13 C10 C01
-//@ rewrite 1 "let name = name.into();" => "let name = name_into(name);"
+//@ sig 1 "name: impl Into<String>" => "name: NameArg"
+//@ at-start
+        let ghost name_text = name.s@;
 //@ at-end
-        assert(self.stream_maps@[name@] =~= maps_bound_to(old(self)@, name@).push(new_map_descriptor(span)));
-        assert(as_streams(self.stream_maps@)[name@] =~= bound_to(as_streams(old(self)@), name@).push(as_stream_descriptor(new_map_descriptor(span))));
+        assert(self.stream_maps@[name_text] =~= maps_bound_to(old(self)@, name_text).push(new_map_descriptor(span)));
+        assert(as_streams(self.stream_maps@)[name_text] =~= bound_to(as_streams(old(self)@), name_text).push(as_stream_descriptor(new_map_descriptor(span))));
 //@ spec
         ensures
             // every descriptor that was bound to the name still is, in the same order, followed by the new restricted one (empty map);
             // every other name is untouched
-            final(self)@ == old(self)@.insert(into_text(name), maps_bound_to(old(self)@, into_text(name)).push(new_map_descriptor(span))),
+            final(self)@ == old(self)@.insert(name.s@, maps_bound_to(old(self)@, name.s@).push(new_map_descriptor(span))),
             // C13
             no_stream_lost(as_streams(old(self)@), as_streams(final(self)@)),
 //@ end
